@@ -838,9 +838,18 @@ class Normaliser(object):
                             if not (isinstance(d, ast.FunctionDef) and d is not fn and not d.decorator_list and d.name not in self.pinned):
                                 continue
                             body = _docless(d.body)
-                            if not (len(body) == 1 and isinstance(body[0], ast.Return) and body[0].value is not None):
-                                continue
                             if any(isinstance(n, (ast.Yield, ast.YieldFrom, ast.Await)) for n in ast.walk(d)):
+                                continue
+                            if not (len(body) == 1 and isinstance(body[0], ast.Return)) and _terminates(body) and \
+                                    not any(isinstance(n, (ast.Raise, ast.FunctionDef, ast.Lambda, ast.For, ast.While, ast.Try, ast.With)) for n in ast.walk(d) if n is not d):
+                                # guard-clause form `if c: return a` ... `return b`: one conditional expression
+                                try:
+                                    st_ = structure(copy.deepcopy(body), [], lambda v, at: [ast.copy_location(ast.Return(value=v), at)])
+                                except Unstructurable:
+                                    st_ = body
+                                if len(st_) == 1 and isinstance(st_[0], ast.Return) and st_[0].value is not None:
+                                    body = st_
+                            if not (len(body) == 1 and isinstance(body[0], ast.Return) and body[0].value is not None):
                                 continue
                             uses = [n for n in ast.walk(fn) if isinstance(n, ast.Name) and n.id == d.name]
                             if len(uses) != 1 or not isinstance(uses[0].ctx, ast.Load) or any(x is uses[0] for x in ast.walk(d)):
@@ -850,6 +859,35 @@ class Normaliser(object):
                                 continue
                             lam = ast.copy_location(ast.Lambda(args=d.args, body=body[0].value), d)
                             use = uses[0]
+                            # called right there with plain names / constants for plain parameters: the body itself, arguments put in
+                            # (the function reads its free variables when it is called, which is where the expression now stands)
+                            calls = [c_ for c_ in ast.walk(fn) if isinstance(c_, ast.Call) and c_.func is use]
+                            a_ = d.args
+                            prm = [x.arg for x in a_.args]
+                            stored_in_body = {x.id for x in ast.walk(body[0].value) if isinstance(x, ast.Name) and isinstance(x.ctx, ast.Store)}
+                            if calls and not (a_.vararg or a_.kwarg or a_.kwonlyargs or a_.posonlyargs or a_.defaults) and not calls[0].keywords and \
+                                    len(calls[0].args) == len(prm) and all(isinstance(x, (ast.Name, ast.Constant)) for x in calls[0].args) and \
+                                    not stored_in_body:
+                                bind = dict(zip(prm, calls[0].args))
+
+                                class S(ast.NodeTransformer):
+                                    def visit_Name(self_, n):
+                                        return copy.deepcopy(bind[n.id]) if isinstance(n.ctx, ast.Load) and n.id in bind else n
+                                expr_ = S().visit(copy.deepcopy(body[0].value))
+                                call_ = calls[0]
+
+                                class RC(ast.NodeTransformer):
+                                    def visit_Call(self_, n):
+                                        if n is call_:
+                                            return ast.copy_location(expr_, n)
+                                        self_.generic_visit(n)
+                                        return n
+                                RC().visit(fn)
+                                b.remove(d)
+                                if not b:
+                                    b.append(ast.copy_location(ast.Pass(), d))
+                                self.inlined.append((d.name, fn.name, 'nested-def-applied'))
+                                continue
 
                             class R(ast.NodeTransformer):
                                 def visit_Name(self_, n):
@@ -995,10 +1033,11 @@ class Normaliser(object):
 
     def run(self):
         if self.inline_only:
-            self._defs_to_lambdas = self._ifs_to_conditional_expressions = self._outline = lambda: None
+            self._defs_to_lambdas = self._ifs_to_conditional_expressions = self._outline = self._merge_conditional_calls = lambda: None
         self._defs_to_lambdas()
         if not self.helpers:
             self._ifs_to_conditional_expressions()
+            self._merge_conditional_calls()
             self._outline()
             return self
         for _ in range(8):
@@ -1017,10 +1056,30 @@ class Normaliser(object):
         self._drop_unused()
         self._propagate_temporaries()
         self._ifs_to_conditional_expressions()
+        self._merge_conditional_calls()
         self._outline()
         for t in self.trees.values():
             ast.fix_missing_locations(t)
         return self
+
+    def _merge_conditional_calls(self):
+        """`f(args) if c else g(args)` (same argument expressions) -> `(f if c else g)(args)`: test, callee, arguments are evaluated in
+        the same order in both forms; one canonical form for the rules that resolve a conditional callee"""
+        norm_ = self
+
+        class T(ast.NodeTransformer):
+            def visit_IfExp(self_, n):
+                self_.generic_visit(n)
+                a, b = n.body, n.orelse
+                if isinstance(a, ast.Call) and isinstance(b, ast.Call) and isinstance(a.func, ast.Attribute) and isinstance(b.func, ast.Attribute) and \
+                        [ast.dump(x) for x in a.args] == [ast.dump(x) for x in b.args] and \
+                        [(k.arg, ast.dump(k.value)) for k in a.keywords] == [(k.arg, ast.dump(k.value)) for k in b.keywords] and \
+                        ast.dump(a.func) != ast.dump(b.func):
+                    norm_.inlined.append(('conditional call', 'same arguments', 'to-conditional-callee'))
+                    return ast.copy_location(ast.Call(func=ast.IfExp(test=n.test, body=a.func, orelse=b.func), args=a.args, keywords=a.keywords), n)
+                return n
+        for t in self.trees.values():
+            T().visit(t)
 
     def _outline(self):
         """pinned functions that were inlined into their callers are taken out again where a rule needs them as a unit"""
